@@ -96,6 +96,21 @@ func (h *hSpec) Cond(x *gea.Exec, st *gea.State, e ast.Expr, env *gea.Env) ([]ge
 			}
 			return o, true
 		}
+		// the record against nil: the name table never holds a nil record (checked by the
+		// closed-writer rule: every insertion stores a record built in place), so a looked-up
+		// record is nil exactly when the lookup missed, and a freshly built one never is
+		if (op == token.EQL || op == token.NEQ) && ((a == "rec" && b == "nil") || (a == "nil" && b == "rec")) {
+			var o []gea.OutB
+			if st.Store["@fresh"] == gea.True {
+				o = []gea.OutB{{St: st, V: false}}
+			} else {
+				o = negate(x.Atom(st, vOK))
+			}
+			if op == token.NEQ {
+				o = negate(o)
+			}
+			return o, true
+		}
 		// incarnation order
 		if b == "c.Incarnation" && a != "c.Incarnation" {
 			a, b = b, a
@@ -478,6 +493,9 @@ func (c *Ctx) handlerModels() map[string]*handlerModel {
 		if !sum["W:nodeState.State"] && !sum["W:nodeState.Incarnation"] {
 			continue
 		}
+		if !handlerChoice(c, kind, fn) {
+			continue
+		}
 		if _, dup := out[kind]; dup {
 			fail("anchor ambiguous: two %s handlers", kind)
 		}
@@ -527,6 +545,19 @@ func (c *Ctx) handlerModels() map[string]*handlerModel {
 				})
 				if callsDead {
 					ts := &hSpec{c: c, kind: "timer", fn: fn, claim: spec.claim, recv: spec.recv}
+					if enc := p.EnclosingDecl(fl); enc != nil && enc != fn {
+						// the closure moved into a helper extracted from the handler: it
+						// captures the helper's receiver and claim parameter
+						ts.claim, ts.recv = nil, nil
+						if enc.Decl.Recv != nil && len(enc.Decl.Recv.List[0].Names) > 0 {
+							ts.recv = p.Info.Defs[enc.Decl.Recv.List[0].Names[0]]
+						}
+						for _, f := range enc.Decl.Type.Params.List {
+							if _, isPtr := p.TypeOf(f.Type).(*types.Pointer); isPtr && core.NamedOf(p.TypeOf(f.Type)) == kind && len(f.Names) > 0 {
+								ts.claim = p.Info.Defs[f.Names[0]]
+							}
+						}
+					}
 					tx := gea.New(p, fn.Name+"$timer", fl.Type, fl.Body, ts)
 					tx.InlineCallee = c.inlinePolicy
 					tx.Run()
@@ -621,4 +652,40 @@ func classIn(set ...string) func(e *gea.Effect) bool {
 func classNotIn(set ...string) func(e *gea.Effect) bool {
 	in := classIn(set...)
 	return func(e *gea.Effect) bool { return !in(e) }
+}
+
+// handlerChoice: a later change may split a handler into a wrapper and a
+// worker that takes the same claim (both write the record through their
+// summaries). The handler is then the outermost one: a candidate that is a
+// helper introduced after the review and runs only as part of another
+// candidate of the same kind is explored in place, not as a second handler.
+func handlerChoice(c *Ctx, kind string, fn *core.Func) bool {
+	if pinnedFuncs[fn.Name] {
+		return true
+	}
+	p := c.P
+	within := map[*core.Func]bool{}
+	for _, o := range p.SortedFuncs() {
+		if o == fn || o.Decl.Recv == nil || core.NamedOf(p.TypeOf(o.Decl.Recv.List[0].Type)) != "Memberlist" {
+			continue
+		}
+		params := o.Decl.Type.Params.List
+		if len(params) == 0 || len(params[0].Names) == 0 {
+			continue
+		}
+		pt := p.TypeOf(params[0].Type)
+		if _, isPtr := pt.(*types.Pointer); !isPtr || core.NamedOf(pt) != kind {
+			continue
+		}
+		if !pinnedFuncs[o.Name] {
+			continue
+		}
+		within[o] = true
+	}
+	if len(within) == 0 {
+		return true
+	}
+	// (referenced from a literal inside the handler counts too: the timer callback's body
+	// may become a method that takes the claim)
+	return !c.allRoots(fn, func(r *core.Func) bool { return within[r] })
 }
